@@ -128,6 +128,8 @@ _EXTRA_EXC = {
     "JSONDecodeError": ["ValueError"],
     "ParseError": ["SyntaxError"],
     "XMLSyntaxError": ["SyntaxError"],
+    "ClickException": ["Exception"],
+    "CodegenError": ["ClickException"],  # xsdata/codegen/exceptions.py: class CodegenError(click.ClickException)
 }
 
 
